@@ -301,4 +301,64 @@ theorem run_cores (sem : SlotSem) (s s' : St) (sched : List Nat)
           · simp at hst
         rw [this]; exact hp t (List.mem_of_getElem? ht)
 
+/-- termination measure of one task -/
+def mu (t : Task) : Nat :=
+  match t.ph with
+  | .idle => 2 * t.cores + 2
+  | .acq k => 2 * t.cores + 1 - k
+  | .run => t.cores + 1
+  | .rel k => k
+  | .done => 0
+
+def measure (s : St) : Nat := sumBy mu s.tasks
+
+theorem stepTask_mu (sem : SlotSem) (max o : Nat) (l : Bool) (t t' : Task) (hw : wfTask t)
+    (h : stepTask sem max o l t = some t') : mu t' < mu t := by
+  obtain ⟨c, ph⟩ := t
+  cases ph with
+  | idle =>
+    simp only [stepTask] at h
+    split at h
+    · simp at h
+    · split at h <;> (simp at h; subst h; simp [mu]; try omega)
+  | acq k =>
+    simp only [stepTask] at h
+    simp only [wfTask] at hw
+    split at h
+    · split at h <;> (simp at h; subst h; simp [mu]; omega)
+    · simp at h
+  | run =>
+    simp only [stepTask] at h
+    simp at h; subst h
+    by_cases hc : c = 0 <;> simp [mu, hc]
+  | rel k =>
+    simp only [stepTask] at h
+    simp only [wfTask] at hw
+    simp at h; subst h
+    by_cases hc : k ≤ 1 <;> simp [mu, hc] <;> omega
+  | done => simp [stepTask] at h
+
+theorem step_measure (sem : SlotSem) (s s' : St) (i : Nat) (hinv : Inv s)
+    (h : step sem s i = some s') : measure s' < measure s := by
+  obtain ⟨t, t', ht, hst, rfl⟩ := step_some sem s s' i h
+  have hlt := stepTask_mu sem _ _ _ t t' (hinv.2 t (List.mem_of_getElem? ht)) hst
+  simp only [measure]
+  rw [sumBy_set mu _ i t t' ht, sumBy_split mu _ i t ht]
+  omega
+
+theorem run_measure (sem : SlotSem) (sched : List Nat) (s0 s : St) (hinv : Inv s0)
+    (h : run sem s0 sched = some s) : sched.length + measure s ≤ measure s0 := by
+  induction sched generalizing s0 with
+  | nil => simp [run] at h; subst h; simp
+  | cons i is ih =>
+    simp only [run] at h
+    split at h
+    · simp at h
+    · rename_i s1 hs1
+      have h1 := step_inv sem s0 s1 i hinv hs1
+      have := ih s1 h1.1 h
+      have := step_measure sem s0 s1 i hinv hs1
+      simp; omega
+
+
 end SciVerif.Slots
